@@ -72,3 +72,23 @@ def programs(max_stmts=2):
         s0 = list(stmts(0))
         for a, b in itertools.product(s1, s0):
             yield pre + a + "\n" + b
+
+
+def boundary_programs():
+    """literal/local operand order at the boundary values, inside functions (fused opcodes), at top
+    level (generic opcodes), in conditions and in loop conditions: every operator, both operand orders,
+    argument below / equal to / above the literal"""
+    out = []
+    ops = ["<", "<=", ">", ">=", "==", "!=", "+", "-", "*", "/", "%"]
+    for op in ops:
+        for c in (0, 5):
+            for v in (c - 1, c, c + 1):
+                vl = str(v) if v >= 0 else "(0 - %d)" % -v
+                out.append("functie f(n) { %d %s n } f(%s)" % (c, op, vl))
+                out.append("functie f(n) { n %s %d } f(%s)" % (op, c, vl))
+                out.append("stel n = %s; [%d %s n, n %s %d]" % (vl, c, op, op, c))
+                if op in ("<", "<=", ">", ">=", "==", "!="):
+                    out.append("functie f(n) { als %d %s n { 1 } anders { 2 } } f(%s)" % (c, op, vl))
+                    out.append("functie f(n) { stel k = 0; zolang %d %s n && k < 3 { k += 1; n = n + 1; }; [k, n] } f(%s)" % (c, op, vl))
+                    out.append("functie f(n) { stel k = 0; zolang n %s %d && k < 3 { k += 1; n = n - 1; }; [k, n] } f(%s)" % (op, c, vl))
+    return out
